@@ -26,16 +26,34 @@ def run_jobs(ctx, exe, scen, jobs, tag, nproc=8, want_ops=False, timeout=1800):
         files.append((inp, outp))
 
     def one(io):
-        args = ["conc", io[0], io[1]] + (["ops"] if want_ops else [])
-        p = vh(exe, args, timeout=timeout, check=True, ok_codes=(0, 3))
-        return p.returncode
-    with cf.ThreadPoolExecutor(max_workers=nproc) as ex:
-        list(ex.map(one, files))
+        """runs one chunk; a job on which the harness got stuck (exit 4: a thread blocked on something the scheduler does not control) is
+        recorded as {"stuck": true} and the jobs after it are run by a fresh process"""
+        inp, outp = io
+        lines = open(inp).read().splitlines()
+        head, rest = lines[0], lines[1:]
+        out = []
+        for rnd in range(8):
+            args = ["conc", inp, outp] + (["ops"] if want_ops else [])
+            p = vh(exe, args, timeout=timeout, check=True, ok_codes=(0, 3, 4))
+            got = [json.loads(x) for x in open(outp)]
+            out += got
+            if p.returncode != 4:
+                return out
+            rest = rest[len(got):]
+            if not rest:
+                return out
+            with open(inp, "w") as f:
+                f.write(head + "\n" + "\n".join(rest) + "\n")
+        raise ToolError("the harness got stuck on 8 schedules of one chunk (%s)" % inp)
     res = []
-    for _, outp in files:
-        with open(outp) as f:
-            for line in f:
-                res.append(json.loads(line))
+    with cf.ThreadPoolExecutor(max_workers=nproc) as ex:
+        for out in ex.map(one, files):
+            res += out
+    stuck = [x for x in res if x.get("stuck")]
+    if stuck:
+        log("MODEL-DRIFT property=%s scenario=%s: %d schedule(s) could not be driven to the end (a thread blocked outside the scheduler's control), e.g. %s; no verdict for them" % (ctx.pid, tag, len(stuck), stuck[0]["id"]))
+        ctx.cov["stuck_schedules"] = ctx.cov.get("stuck_schedules", 0) + len(stuck)
+    res = [x for x in res if not x.get("stuck")]
     return inject_conc_fault(res)
 
 
